@@ -41,6 +41,9 @@ for path in conf:
         open(full, "w").write(base + "require (\n" + "".join("\t%s\n" % r for r in sorted(req)) + ")\n\nreplace github.com/segmentio/kafka-go => /repo\n")
     elif path == "go/go.sum":
         open(full, "w").write("\n".join(sorted(set((ours + theirs).split("\n")) - {""})) + "\n")
+    elif path.startswith("lean/KafkaVerif/Gen/") or path.startswith("go/internal/msgs/"):
+        # generated on every run from /repo: take theirs, the next check run regenerates it anyway
+        open(full, "w").write(theirs if theirs is not None else ours)
     elif path.startswith("evidence/") or path in ("MANIFEST.json", "tools/hooks.json", "docs/DETECTION.md", "seeded/RESULTS.json"):
         open(full, "w").write(theirs if theirs is not None else ours)
     else:
